@@ -7,6 +7,50 @@ ENV = "GOFLAGS=-mod=mod GOPROXY=off GOSUMDB=off GOTOOLCHAIN=local GOWORK=off"
 
 # property id -> (technique, what is decided, what is not decided / trusted base, design ref)
 CLAIMS = {
+ "C01": ("who-may-store (statelessness) over backend packages + attribute-key table agreement between writer and reader functions + struct-literal header forwarding origins + sibling agreement GET/HEAD",
+         "No backend method stores to backend-struct fields or package variables (object state never lives in a process); the content-header attribute keys written by storeObjectMetadata equal those read by loadObjectMetaData (posix and scoutfs agree), ETag/checksums/user-metadata prefix/tags are written by PutObject and CompleteMultipartUpload and read by GetObject/HeadObject under the same keys; PutActions forwards every content header, user metadata, tags and the declared length from its own request header; GetActions and HeadObject emit each stored header from the backend result; temp files are private to one upload and multipart completion copies parts by listed part number.",
+         "Byte equality, ETag = MD5, and agreement across encodings/sizes quantify over body bytes and are NOT decided.",
+         "DESIGN.md §4 C01"),
+ "C05": ("publication-protocol rules on go/ssa (may-precede ordering between openTmpFile, attribute stores and link; who-may-unlink inside the publication primitives; temp-file provenance)",
+         "Between openTmpFile and link() every attribute of the object being published is written through the temp file's descriptor; link()/fallbackLink()/MoveFile do not unlink the destination before publishing (3 known findings); no path-addressed attribute write on the published object follows link() (4 known findings); temp files come from O_TMPFILE or os.CreateTemp only (never a computed shared name). Evaluated for linux/amd64 and, in the thorough tier, darwin/amd64 (non-O_TMPFILE strategy).",
+         "Linearizability over interleavings of filesystem steps is NOT decided (no sound static argument over schedules is in reach); reads by path while a writer publishes are recorded in DESIGN.md, not armed.",
+         "DESIGN.md §4 C05"),
+ "C06": ("cut-reachability on go/ssa (link behind clean copy, digest-mismatch edges, MD5/SHA-256 installation) + switch/constant table agreement in HashReader + length-comparison guard + checksum field/hash-type pairing",
+         "link() is reachable only after the copy into the temp file succeeded and read the body to its end through EOF-transparent wrappers; HashReader verifies every hash type it accepts, fails on mismatch, and returns the inner EOF only past the comparison; Content-MD5 and X-Amz-Content-Sha256 assertions are installed on the immediate and on the deferred branch; the copied byte count is compared with the declared length before publication; every checksum header is parsed, forwarded and wrapped with its own hash type.",
+         "That the hash functions compute the right digests and the chunk-signature arithmetic are not decided; azure/s3proxy integrity handling is the SDK's.",
+         "DESIGN.md §4 C06"),
+ "C07": ("who-may-call / argument-origin rule over every Walk call site + cut rule inside the walk callbacks + marker-origin rule",
+         "Every listing walk (posix and scoutfs, objects and versions) prunes the temp directory under which temp files and multipart uploads live, the two backends agree on its name, and the walk callback returns fs.SkipDir for pruned names before any object is produced; ListObjectsV2 resumes after the later of start-after and the continuation token.",
+         "Completeness, ordering, grouping by delimiter and loss-free pagination quantify over key sets and markers (walk order vs key order is data-dependent) and are NOT decided; only these clauses are.",
+         "DESIGN.md §4 C07"),
+ "C08": ("operand-origin identification of the three completion checks + cut-reachability to the assembly + argument-origin rules for upload-directory derivation, cleanup scope and part selection",
+         "All multipart siblings locate an upload under metaTmpMultipartDir/sha256(unmodified key)/uploadId; completion compares listed with stored part ETags, requires increasing part numbers and the minimum part size, each check has an edge that cannot reach the assembly; the object's ETag is GetMultipartMD5 of the listed parts with the part count as suffix; recursive cleanup names the upload-id directory, abort removes only a found upload; the parts copied are chosen by listed part number.",
+         "Concatenation content, behaviour over interleaved programs of uploads, and weakened (rather than removed) bounds are not decided.",
+         "DESIGN.md §4 C08"),
+ "C09": ("existence-and-order rules (may-precede) for version preservation + region reachability in DeleteObject + per-iteration must-pass rule in the version-restore loop + condition-origin rule",
+         "PutObject and CompleteMultipartUpload save the current version (same key, error checked) before link(), DeleteObject's marker branch saves it before marking; the new ULID is attached through the temp file before publication; a delete without version id reaches no removal; the promote-previous-version loop stores every attribute it read; saving the current version depends on versioning being configured, not on it being Enabled.",
+         "Behaviour over programs of operations (exactly-one-latest, listing order, null-version handling) is NOT decided.",
+         "DESIGN.md §4 C09"),
+ "C11": ("publication-protocol rules shared with C05 + who-may-write-in-place + acquire/release pairing for temp files + removal-after-publication ordering",
+         "Same publication rules as C05 (attributes on the unpublished inode, no unlink before link: 3 known findings, no attribute writes after publication: 4 known findings, private temp files) plus: the backends never create/write object files in place, every successful openTmpFile is followed by a deferred cleanup, and CompleteMultipartUpload removes parts/upload directory only after link() succeeded.",
+         "The enumeration of kill points is an execution notion and is NOT decided; fsync/durability ordering is not examined.",
+         "DESIGN.md §4 C11"),
+ "C12": ("reader typestate on go/ssa: literal-EOF guard rules, may-be-EOF return analysis against io.EOF tests, switch/constant table agreement for reader selection, field-store aliasing rule",
+         "The signed reader reports end of stream only after the final chunk signature and, with a trailer, the trailing checksum and trailer signature verified; the unsigned reader only after a validated trailer; an early inner EOF is never passed on as a clean EOF; literal EOF only after the inner reader was drained; NewChunkReader covers every streaming payload type and refuses others, negative chunk sizes are refused; reader state never aliases the caller's buffer; empty chunk signatures are refused and mismatches fail.",
+         "Equality of decoded bytes for every fragmentation (the in-place buffer arithmetic) is NOT decided; known baseline weakness: chunk headers split across reads after the first header can be falsely rejected (recorded in DESIGN.md).",
+         "DESIGN.md §4 C12"),
+ "C16": ("cut-reachability (name validation, mkdir success) + attribute-key table agreement per bucket setting + who-may-remove in DeleteBucket + must-pass rule in isBucketEmpty",
+         "CreateBucket is reached only for names that passed IsValidBucketName; posix.CreateBucket writes owner/ACL/settings only after os.Mkdir created the directory; each bucket setting is written, read and deleted under one attribute key that no other setting shares; DeleteBucket removes only behind isBucketEmpty success, which reports empty only after reading the bucket directory; recursive removal of the bucket path after a separate emptiness test is reported (1 known finding).",
+         "Races between DeleteBucket and concurrent uploads beyond that construct, ListBuckets paging and restarts are not decided.",
+         "DESIGN.md §4 C16"),
+ "C18": ("struct-literal field-forwarding obligations between gateway and SDK input types + error-origin rule (handleError) + use-before-check rule + constant-key agreement + statelessness (who-may-store)",
+         "Every same-named field of the gateway input is forwarded into the hand-written SDK input literals (frozen object-lock exclusions), required list fields are initialised on every path, every SDK error an S3Proxy method returns passes through handleError, no SDK result is dereferenced before its error is checked, the ACL tag is named by the single aclKey constant, and the proxy keeps no state of its own.",
+         "Observational equivalence with a live endpoint is NOT decided (needs an endpoint); only the structural part of field-by-field translation is.",
+         "DESIGN.md §4 C18"),
+ "C20": ("compiler bounds-check obligations (go build -gcflags=-d=ssa/check_bce) against a reviewed per-function table + allocation-size origin rule + use-before-error-check rule + cross-layer pointer-field agreement + context-local producer/consumer agreement",
+         "Every index/slice the compiler cannot prove in bounds lies in a function whose unproven accesses were reviewed (count per function and kind may not grow); no allocation is sized by a number parsed from the request; no (*T, error) result is dereferenced before its error or nil test; every pointer field the posix backend dereferences unconditionally is set by every controller literal; every Locals key asserted without comma-ok has a producer and AclParser's create-branch exclusions cover PutBucketActions' parsedAcl assertions; the writer/reader agreements behind the reviewed bounds hold.",
+         "Termination, latency, memory growth in general and panics inside dependencies are not decided; a behaviour-preserving edit that adds a new unprovable-but-safe index alarms until reviewed (stated residual); there is no recover middleware, so any panic ends the process.",
+         "DESIGN.md §4 C20"),
  "C02": ("route-table extraction + cut-reachability on go/ssa CFGs of the auth middlewares, deferred-authentication (BIG) atom extraction and handler reachability, drain-before-effect cut rule in the posix backend, literal-EOF typestate on the reader layers",
          "Both auth middlewares (and DecodeURL, MD5, ACL) are registered before every route; every ctx.Next() of the auth middlewares lies behind a signature verdict, the deferred branch that installs the auth reader, or a frozen shortcut, and account/date/expiry/chunk-reader errors fail closed; every handler a deferred-authentication request can reach calls only PutObject/UploadPart with the deferred reader as Body on paths not excluded by IsBigDataAction's own atoms; posix PutObject/UploadPart perform persistent effects only after an io.Copy/io.ReadAll read the Body to its end through EOF-transparent wrappers; auth readers pass the inner EOF only after the check succeeded and chunk readers return a literal io.EOF only after the inner reader reached its end.",
          "Does not decide that the SigV4 computation itself is right (signer unit tests), date arithmetic or canonicalisation; fiber routing facts (route patterns, trailing slash) are trusted as probed; s3proxy/azure are assumed to read Body to EOF inside the SDK. One known finding (version copy before the verdict).",
